@@ -7,6 +7,7 @@ import (
 	"io"
 	"math"
 	"net"
+	"slices"
 	"strconv"
 	"strings"
 	"sync"
@@ -463,7 +464,11 @@ func parseRESP(r *bufio.Reader) ([][]byte, error) {
 		if n < 0 {
 			return nil, nil
 		}
-		out := make([][]byte, 0, n)
+		if n > maxMultiBulkLen {
+			return nil, fmt.Errorf("invalid multibulk length %q", line)
+		}
+		// The declared length is the client's claim; grow with what arrives.
+		out := make([][]byte, 0, min(n, 64))
 		for range n {
 			b, err := r.ReadByte()
 			if err != nil {
@@ -484,8 +489,11 @@ func parseRESP(r *bufio.Reader) ([][]byte, error) {
 				out = append(out, nil)
 				continue
 			}
-			buf := make([]byte, l)
-			if _, err := io.ReadFull(r, buf); err != nil {
+			if l > maxBulkLen {
+				return nil, fmt.Errorf("invalid bulk length %q", line)
+			}
+			buf, err := readBulk(r, l)
+			if err != nil {
 				return nil, err
 			}
 			if err := expectCRLF(r); err != nil {
@@ -505,13 +513,50 @@ func parseRESP(r *bufio.Reader) ([][]byte, error) {
 		if line == "" {
 			return nil, nil
 		}
-		fields := strings.Fields(line)
+		fields := strings.FieldsFunc(line, isInlineSpace)
 		out := make([][]byte, len(fields))
 		for i, f := range fields {
 			out[i] = []byte(f)
 		}
 		return out, nil
 	}
+}
+
+const (
+	// Redis' own protocol limits.
+	maxMultiBulkLen = 1024 * 1024
+	maxBulkLen      = 512 << 20
+	bulkReadChunk   = 64 << 10
+)
+
+// readBulk reads a bulk payload of the declared length without trusting the
+// declaration: memory is allocated as the bytes actually arrive.
+func readBulk(r *bufio.Reader, l int) ([]byte, error) {
+	if l <= bulkReadChunk {
+		buf := make([]byte, l)
+		_, err := io.ReadFull(r, buf)
+		return buf, err
+	}
+	buf := make([]byte, 0, bulkReadChunk)
+	for len(buf) < l {
+		n := min(l-len(buf), max(len(buf), bulkReadChunk))
+		start := len(buf)
+		buf = slices.Grow(buf, n)[:start+n]
+		if _, err := io.ReadFull(r, buf[start:]); err != nil {
+			return nil, err
+		}
+	}
+	return buf, nil
+}
+
+// isInlineSpace: inline commands are split at ASCII white space only; any
+// other byte (including multi-byte UTF-8 spaces) belongs to the argument.
+func isInlineSpace(r rune) bool {
+	switch r {
+	case ' ', '\t', '\n', '\v', '\f', '\r':
+		return true
+	}
+	return false
 }
 
 func readLine(r *bufio.Reader) (string, error) {
